@@ -109,11 +109,13 @@ class Explorer:
                  bound: int | None = None,
                  cache: bool = True,
                  max_executions: int | None = None,
-                 record_forced: bool = False) -> None:
+                 record_forced: bool = False,
+                 max_seconds: float | None = None) -> None:
         self.run = run
         self.bound = bound
         self.cache: dict | None = {} if cache else None
         self.max_executions = max_executions
+        self.max_seconds = max_seconds
         self.record_forced = record_forced
         self.executions = 0
         self.pruned = 0
@@ -125,10 +127,17 @@ class Explorer:
     def explore(self, on_result: Callable[[list[int], object], None]) -> None:
         """Run all executions; ``on_result(choices, result)`` for each
         execution that ran to its end (not pruned)."""
+        import time as _time
+        t0 = _time.time()
         stack: list[tuple[list[int], int]] = [([], 0)]
         while stack:
             if (self.max_executions is not None and
                     self.executions >= self.max_executions):
+                self.capped = True
+                return
+            if (self.max_seconds is not None and
+                    _time.time() - t0 > self.max_seconds):
+                # a cap is reported as a cap, never as full coverage
                 self.capped = True
                 return
             prefix, pdev = stack.pop()
